@@ -413,10 +413,10 @@ impl Monitor for C06 {
     }
     fn plan(&self, tier: &Tier, seed: u64) -> Vec<Chunk> {
         let n = match tier {
-            Tier::Quick => 20_000,
-            Tier::Thorough => 60_000,
+            Tier::Quick => 100_000,
+            Tier::Thorough => 400_000,
         };
-        split_chunks("loc", seed_offset(seed, "C06", 60_000), n, 60_000, 300)
+        split_chunks("loc", seed_offset(seed, "C06", 400_000), n, 400_000, 300)
     }
     fn run_case(&self, kind: &str, idx: u64) -> CaseResult {
         judge(kind, idx, &gen_case(idx), None)
